@@ -102,6 +102,8 @@ class CFG:
         return cur
 
     def _stmt(self, stmt: ast.stmt, incoming: List[Tuple[Node, str]]) -> List[Tuple[Node, str]]:
+        if isinstance(stmt, ast.Expr) and isinstance(stmt.value, ast.Constant):
+            return incoming  # docstring / bare literal: no semantics, no node
         if isinstance(stmt, (ast.FunctionDef, ast.AsyncFunctionDef, ast.ClassDef)):
             n = self._new("stmt", stmt)
             self.by_ast[stmt] = n
